@@ -217,7 +217,25 @@ class C15(Prop):
         base = ast.parse(src)
         matches = resolve(base.body, search)
         if len(matches) > 1:
-            run.count("oracle:ambiguous-location-skipped")
+            # several statements bind the addressed name: which one a lookup means is not decided here, but a
+            # replacement must still change exactly ONE of the candidates and nothing else
+            run.count("oracle:ambiguous-location")
+            node = matches[0][0]
+            repl = build_repl(["arg", "zz9", True] if isinstance(node, ast.arg) else ["annassign", "zz9", 7] if isinstance(node, (ast.AnnAssign, ast.Assign)) else ["classdef"])
+            rr, out, _ = self.py_rewrite(src, search, repl)
+            if "raises" in rr:
+                return []
+            wants = []
+            for _, path in matches:
+                e = ast.parse(src)
+                replace_at(e, path, copy.deepcopy(repl))
+                wants.append(ast.dump(e))
+            try:
+                got = ast.dump(out)
+            except Exception:
+                return []
+            if got not in wants:
+                return [{"what": "a replacement at a location several statements bind did not change exactly one of them", "candidates": len(matches), "got": _unparse(out)[:400]}]
             return []
         cls = classify(c, base, matches)
         run.count("oracle:" + (cls or "in-domain"))
